@@ -304,5 +304,148 @@ def run_case(case: dict[str, Any]) -> Outcome:
     return out
 
 
+def run_startup(case: dict[str, Any]) -> Outcome:
+    """All clients connect while the implementation's ``on_serve_start`` hook (fired by the first connection) is still
+    running.  Served alone, a connection never sees a method body run before that hook has returned; neither may it
+    when other connections arrive during start-up.  The hook is held open until every client has connected and had
+    time to send its first request, then released; every invocation recorded before the release is a violation."""
+    import time
+
+    from lib import prog_runtime as RT
+    from vgi_rpc.rpc import RpcConnection, RpcServer, TcpTransport, UnixTransport, serve_tcp, serve_unix
+
+    out = Outcome()
+    t, m = case["t"], case["max_connections"]
+    methods = copy.deepcopy(case["methods"])
+    for mm in methods:
+        mm["params"] = [*mm["params"], {"name": "who", "type": "int"}]
+    scripts = [[{**c, "args": {**c["args"], "who": ci}} for c in sc] for ci, sc in enumerate(case["scripts"])]
+    n = len(scripts)
+    spec = {"methods": methods, "calls": [c for s_ in scripts for c in s_]}
+    run_id = f"c41s-{os.getpid()}-{next(_counter)}"
+    protocol, impl, _mod = programs.build_service(spec, run_id)
+    scratch = SCRATCH / run_id
+    entered, release = threading.Event(), threading.Event()
+    st8: dict[str, Any] = {"done": False, "calls": 0}
+    early: list[dict[str, Any]] = []
+    obs: list[list[dict[str, Any]]] = [[] for _ in range(n)]
+    connected = [threading.Event() for _ in range(n)]
+    client_errors: dict[int, BaseException] = {}
+    server_errors: list[BaseException] = []
+    threads: list[threading.Thread] = []
+    try:
+        solo = [_solo(t, protocol, impl, spec, s_) for s_ in scripts]
+
+        def hook(kind: Any) -> None:
+            st8["calls"] += 1
+            entered.set()
+            release.wait(30)
+            st8["done"] = True
+
+        impl.on_serve_start = hook
+        RT.HOOKS[run_id] = lambda ev: early.append({k: ev.get(k) for k in ("ev", "mid", "kwargs")}) if not st8["done"] else None
+        bound = threading.Event()
+        addr: dict[str, Any] = {}
+        server = RpcServer(protocol, impl)
+
+        def serve() -> None:
+            try:
+                if t == "unix":
+                    scratch.mkdir(parents=True, exist_ok=True)
+                    addr["path"] = str(scratch / "s")
+                    serve_unix(server, addr["path"], threaded=True, max_connections=m, idle_timeout=IDLE_TIMEOUT, on_bound=lambda _p: bound.set())
+                else:
+                    def on_bound(_h: str, p_: int) -> None:
+                        addr["port"] = p_
+                        bound.set()
+
+                    serve_tcp(server, "127.0.0.1", 0, threaded=True, max_connections=m, idle_timeout=IDLE_TIMEOUT, on_bound=on_bound)
+            except BaseException as e:
+                server_errors.append(e)
+                bound.set()
+
+        sth = threading.Thread(target=serve, daemon=True, name="verif-c41-accept")
+        sth.start()
+        if not bound.wait(60) or server_errors:
+            raise transports.HarnessStall(f"c41 startup: server did not bind: {server_errors!r}")
+
+        def client_main(ci: int) -> None:
+            try:
+                if t == "unix":
+                    sock = socket.socket(socket.AF_UNIX, socket.SOCK_STREAM)
+                    sock.connect(addr["path"])
+                    tr: Any = UnixTransport(sock)
+                else:
+                    sock = socket.create_connection(("127.0.0.1", addr["port"]))
+                    tr = TcpTransport(sock)
+                logs: list[Any] = []
+                cm = RpcConnection(protocol, tr, on_log=logs.append)
+                proxy = cm.__enter__()
+                try:
+                    conn = transports.Conn(proxy=proxy, logs=logs)
+                    connected[ci].set()
+                    for call in scripts[ci]:
+                        obs[ci].append(_clean(transports.observe_call(conn, spec, call)))
+                finally:
+                    try:
+                        cm.__exit__(None, None, None)
+                    finally:
+                        tr.close()
+            except BaseException as e:
+                client_errors[ci] = e
+            finally:
+                connected[ci].set()
+
+        for ci in range(n):
+            th = threading.Thread(target=client_main, args=(ci,), daemon=True, name=f"verif-c41-client{ci}")
+            threads.append(th)
+            th.start()
+        if not entered.wait(30):
+            release.set()
+            raise transports.HarnessStall("c41 startup: on_serve_start was never called")
+        for ev_ in connected:
+            ev_.wait(5)
+        time.sleep(0.12)  # room for a (wrongly) unblocked connection to dispatch its first request; never needed for soundness
+        release.set()
+        for th in threads:
+            th.join(timeout=60)
+        sth.join(timeout=60)
+        alive = [th.name for th in [*threads, sth] if th.is_alive()]
+        if alive:
+            raise transports.HarnessStall(f"c41 startup stalled: threads alive: {alive}; client_errors={client_errors!r}")
+    finally:
+        release.set()
+        RT.HOOKS.pop(run_id, None)
+        programs.dispose_service(run_id)
+        shutil.rmtree(scratch, ignore_errors=True)
+        with contextlib.suppress(OSError):
+            SCRATCH.rmdir()
+    tag = f"{t}/max={m}"
+    for e in server_errors:
+        out.fail(f"accept_loop_died/{type(e).__name__}", f"[{tag}] serve_{t} raised {type(e).__name__}: {e}")
+    for ci, e in sorted(client_errors.items()):
+        out.fail(f"client_failed/{t}/{type(e).__name__}", f"[{tag}] client {ci} ended with {type(e).__name__}: {e}")
+    if early:
+        whos = sorted({(e.get("kwargs") or {}).get("who") for e in early}, key=str)
+        out.fail(f"dispatched_before_serve_start/{t}",
+                 f"[{tag}] {len(early)} method bodies (clients {whos}) ran while on_serve_start — fired by the first connection — had not returned: {early[:3]}")
+    if st8["calls"] != 1:
+        out.label(f"serve_start_calls={st8['calls']}")
+    for ci in range(n):
+        if ci in client_errors:
+            continue
+        for k, call in enumerate(scripts[ci]):
+            if k >= len(obs[ci]):
+                out.fail(f"call_missing/{t}/startup", f"[{tag}] client {ci} call#{k} was never completed")
+                continue
+            a, b = solo[ci][k], obs[ci][k]
+            for aspect in [x for x in a if a[x] != b[x]]:
+                out.fail(f"differs_from_solo/{t}/startup/{aspect}", f"[{tag}] client {ci} call#{k} {aspect}: solo {str(a[aspect])[:300]} vs {str(b[aspect])[:300]}")
+    out.nontrivial = n >= 2 and (m is None or m >= 2)
+    out.label(f"t={t}", f"max_connections={m}", f"clients={n}", "startup")
+    return out
+
+
 def main(chk: Check) -> None:
     chk.explore("schedules", cases(), run_case, quick=400, thorough=4000)
+    chk.explore("startup", cases(), run_startup, quick=60, thorough=1200)
